@@ -8,4 +8,15 @@ META = {
         trusted=["Codec/V1Table.lean: transcription of the Seata Java v1 codecs (no Java source offline)"],
         assumptions=["field values beyond a length prefix's limit are compared on bytes only (outside the property)"],
     ),
+    "C13": dict(
+        rule="frames written by the real RpcPackageHandler.Write (random ids, types incl. heartbeats, head maps with "
+             "empty keys/values, C12-normal bodies) are fed to the real Read through a copy of dubbo-getty's "
+             "handleTCPPackage loop and to the Lean `feed`: every cut position of 1-2 frame streams (as two chunks and "
+             "as a truncation), random partitions of 1-6 frame streams, mutated/garbage streams; Write vs writeFrame "
+             "bytes for head maps with <=1 entry. distinct = distinct op text; non-trivial = more than one chunk",
+        trusted=["copy of dubbo-getty v1.5.0 handleTCPPackage loop in harness/c13.go (driveRead)"],
+        assumptions=["garbage streams whose head map overruns its declared length: the contract model says `bad`, the "
+                     "implementation is only required not to crash or spin there (comparison skipped, oracle kept)"],
+        lenient=lambda cid, impl, model, tags: tags.get("garbage") == "1" and model is not None and model.endswith("hm-irregular"),
+    ),
 }
